@@ -180,16 +180,14 @@ fn zstep<const N: usize>(b: &mut CircularBuffer<N, Z>, len: &mut usize, op: &ZOp
             ZOp::Drain(a, e, script, forget) => {
                 let mut d = b.drain(*a..*e);
                 chk(*a <= *e && *e <= l0, format!("drain({}..{}) did not panic with len {}", a, e, l0))?;
-                let mut rem = e - a;
+                let mut w = crate::ops::Win { lo: *a, hi: *e };
                 for s in script {
-                    chk(d.len() == rem, format!("drain len {} expected {}", d.len(), rem))?;
-                    let x = match s {
-                        Step::F => d.next(),
-                        Step::B => d.next_back(),
-                    };
-                    chk(x.is_some() == (rem > 0), format!("drain step yielded {:?} with {} remaining", x, rem))?;
-                    rem = rem.saturating_sub(1);
+                    chk(d.len() == w.len(), format!("drain len {} expected {}", d.len(), w.len()))?;
+                    let x = crate::ops::apply_step(&mut d, *s);
+                    let want = w.step(*s);
+                    chk(x.is_some() == want.is_some(), format!("drain step {:?} yielded {:?}, expected Some: {}", s, x, want.is_some()))?;
                 }
+                let rem = w.len();
                 chk(d.len() == rem && d.size_hint() == (rem, Some(rem)), format!("drain len {} expected {}", d.len(), rem))?;
                 if *forget {
                     std::mem::forget(d);
@@ -207,12 +205,11 @@ fn zstep<const N: usize>(b: &mut CircularBuffer<N, Z>, len: &mut usize, op: &ZOp
                         chk(valid, format!("range({}..{}) did not panic with len {}", a, e, l0))?;
                         for s in script {
                             chk(it.len() == rem, format!("iterator len {} expected {}", it.len(), rem))?;
-                            let x = match s {
-                                Step::F => it.next(),
-                                Step::B => it.next_back(),
-                            };
-                            chk(x.is_some() == (rem > 0), format!("iterator yielded {} with {} remaining", x.is_some(), rem))?;
-                            rem = rem.saturating_sub(1);
+                            let x = crate::ops::apply_step(&mut it, *s);
+                            let mut w = crate::ops::Win { lo: 0, hi: rem };
+                            let want = w.step(*s);
+                            chk(x.is_some() == want.is_some(), format!("iterator yielded {} with {} remaining", x.is_some(), rem))?;
+                            rem = w.len();
                         }
                         chk(it.len() == rem && it.size_hint() == (rem, Some(rem)), format!("iterator len {} expected {}", it.len(), rem))?;
                         chk(it.count() == rem, "iterator count".to_string())?;
@@ -427,7 +424,9 @@ fn zops(len: usize, n: usize, fills: bool) -> Vec<ZOp> {
         v.push(ZOp::ExtendFromSlice(k));
         v.push(ZOp::CloneFrom(k));
     }
-    let scripts = scripts_upto(3);
+    let mut scripts = scripts_upto(3);
+    scripts.push(vec![Step::N(1)]);
+    scripts.push(vec![Step::NB(2), Step::F]);
     for a in 0..=len {
         for e in a..=len {
             for s in scripts.iter().filter(|s| s.len() <= e - a + 1) {
